@@ -64,6 +64,16 @@ func checkC07(p *Prog, r *Report) {
 		w := writes[0]
 		facts, _ := p.FactsAtCall(f, w)
 		_, open := p.HasCallEqNil(facts, f, "taskloop.Loop.Err", 0, true)
+		if !open {
+			// "the test was passed on the way here" (the error variable may have been re-used since)
+			open = factListHas(p.DominatingFactList(f, w), func(ft Fact) bool {
+				if ft.Op != "==" || !ft.Val || ft.Y == nil || !p.isNilExpr(ft.Y) {
+					return false
+				}
+				_, ok := p.exprIsCallTo(f, ft.X, "taskloop.Loop.Err", 0)
+				return ok
+			})
+		}
 		_, notStun := p.HasCallTruth(facts, f, "stun.IsMessage", 0, false)
 		r.Check(open, f.Name+": write requires an open agent", p.Pos(w.Pos()), "dominated by loop.Err() == nil", "data can be written after Close without the closed error")
 		r.Check(notStun, f.Name+": STUN payloads refused", p.Pos(w.Pos()), "dominated by !stun.IsMessage(packet)", "payloads that parse as STUN are written to the peer")
